@@ -3,7 +3,7 @@
 # 1. confirm in a scratch worktree: suite passes with the change, demo fails with / passes without
 # 2. run ./check <PID> --tier quick against /repo with the patch applied, then undo
 set -u
-D=$1; PID=$2; SKIP=${3:-}
+D=$(readlink -f $1); PID=$2; SKIP=${3:-}
 WT=/tmp/wt-verify-$$
 git -C /repo worktree add -q $WT HEAD || exit 9
 trap 'git -C /repo worktree remove --force '$WT' >/dev/null 2>&1; git -C /repo checkout -- . ' EXIT
@@ -15,8 +15,13 @@ if [ -z "$SKIP" ]; then
   PYTHONPATH=$WT timeout 1200 /venv/bin/python -m pytest -q -p no:cacheprovider Test 2>&1 | tail -1
 fi
 cd /verif
-git -C /repo apply $D/patch.diff || { echo "PATCH DOES NOT APPLY TO /repo"; exit 8; }
-timeout 900 ./check $PID --tier quick --no-evidence > /tmp/w/check_mut.out 2>&1; echo "check exit: $?"
-git -C /repo checkout -- .
+if [ -n "${USE_SCRATCH:-}" ]; then
+  # a background `vp run` is using /repo: run the check against the patched scratch worktree instead
+  DSIM_REPO=$WT timeout 900 ./check $PID --tier quick --no-evidence > /tmp/w/check_mut.out 2>&1; echo "check exit (DSIM_REPO=$WT): $?"
+else
+  git -C /repo apply $D/patch.diff || { echo "PATCH DOES NOT APPLY TO /repo"; exit 8; }
+  timeout 900 ./check $PID --tier quick --no-evidence > /tmp/w/check_mut.out 2>&1; echo "check exit: $?"
+  git -C /repo checkout -- .
+fi
 grep -E "^VIOLATION|signature=" /tmp/w/check_mut.out | cut -c1-260 | head -8
 tail -1 /tmp/w/check_mut.out | cut -c1-200
